@@ -46,12 +46,48 @@ contract(MI, "DatasetIteration.as_numpy_iterator", props=["C02", "C03", "C12", "
     requires=_IT_REQ + ["KNOWN_TYPE(self)"],
     ensures=[
         ("C19", "not repeat"),                 # with repeat the pass never ends
-        ("C03", "implies(shuffle == 0, outs == CANON(self, split, process_record, shards, custom_metadata_type_limit, shard_filter))"),
-        ("C02", "MSS(outs) == MSS(CANON(self, split, process_record, shards, custom_metadata_type_limit, shard_filter))"),
+        (["C03", "C12"], "implies(shuffle == 0, outs == CANON(self, split, process_record, shards, custom_metadata_type_limit, shard_filter))"),
+        (["C02", "C12"], "MSS(outs) == MSS(CANON(self, split, process_record, shards, custom_metadata_type_limit, shard_filter))"),
         ("C07", "not FAILS(outs)"),
     ],
     at_diverge=[
         ("C19", "repeat and not FIN(outs)"),
-        ("C19", "implies(shuffle == 0, outs == CANONCYC(self, split, process_record, shards, custom_metadata_type_limit, shard_filter))"),
+        (["C19", "C12"], "implies(shuffle == 0, outs == CANONCYC(self, split, process_record, shards, custom_metadata_type_limit, shard_filter))"),
     ],
     raises={"ValueError": ["True"], "Foreign": ["True"]})
+
+macro("PALOF", ["d", "pr"], "PALF(d._dataset_info.dataset_structure.shard_file_type, d._dataset_info.dataset_structure, pr)")
+_CONC_MOD = ["IterateShardBase.dataset_structure", "IterateShardBase.process_record",
+             "IterateShardTFRec.from_tfrecord", "IterateShardTFRec.num_parallel_calls",
+             "LazyPool._threads", "LazyPool._to_process", "LazyPool._results", "LazyPool._active_threads",
+             "Queue.nput", "Queue.nput_stop", "Queue.nget", "Queue.nget_stop"]
+contract(MI, "DatasetIteration.as_numpy_iterator_concurrent",
+    props=["C02", "C03", "C12", "C19", "C07", "C14", "C13"],
+    params=_IT_PARAMS, generator=True, stream_out=True, defs=_SEL_DEFS, modifies=_CONC_MOD,
+    requires=_IT_REQ + ["KNOWN_TYPE(self)", "file_parallelism >= 1"],
+    ensures=[
+        ("C19", "not repeat"),
+        (["C03", "C12"], "implies(shuffle == 0, outs == CANON(self, split, process_record, shards, custom_metadata_type_limit, shard_filter))"),
+        (["C02", "C12"], "MSS(outs) == MSS(CANON(self, split, process_record, shards, custom_metadata_type_limit, shard_filter))"),
+        ("C07", "not FAILS(outs)"),
+    ],
+    at_diverge=[
+        ("C19", "repeat and not FIN(outs)"),
+        (["C19", "C12"], "shuffle != 0 and outs == RRS(LAZYS(PALOF(self, process_record), COMMON(self, split, shards, custom_metadata_type_limit, shard_filter, repeat, shuffle), file_parallelism), file_parallelism)"),
+    ],
+    at_yield=[
+        # C14 (unshuffled): at most file_parallelism shard paths pulled beyond those fully yielded
+        ("C14", "implies(shuffle == 0, len(batch) <= file_parallelism)"),
+    ],
+    raises={"ValueError": ["True"], "Foreign": ["True"]},
+    loops={1: Loop(inv=[
+        "shuffle == 0 and file_parallelism >= 1",
+        "0 <= len(batch) and len(batch) <= file_parallelism and len(batch) <= consumed(shard_paths_iterator)",
+        # C03 / C19: what has been yielded so far is the canonical stream of the path prefix consumed
+        (["C03", "C19", "C12"], "outs == FLATS(MAPS(PALOF(self, process_record), OFSEQ(TAKES(COMMON(self, split, shards, custom_metadata_type_limit, shard_filter, repeat, shuffle), consumed(shard_paths_iterator) - len(batch)))))"),
+        "seq(batch) == TAKES(DROPS(COMMON(self, split, shards, custom_metadata_type_limit, shard_filter, repeat, shuffle), consumed(shard_paths_iterator) - len(batch)), len(batch))",
+        "implies(len(batch) < file_parallelism, exhausted(shard_paths_iterator))",
+        "srcstream(shard_paths_iterator) == COMMON(self, split, shards, custom_metadata_type_limit, shard_filter, repeat, shuffle)",
+        "not FAILS(COMMON(self, split, shards, custom_metadata_type_limit, shard_filter, repeat, shuffle))",
+        "not failed()", "not FAILS(outs)",
+    ])})
